@@ -71,7 +71,8 @@ def rdStep (line : String) : String :=
                          inflatedLimit := dl, inflate := lookupInf tbl }
       let st := Reader.runReader cfg data
       let sp := Spec.decode cfg Reader.goValidCloseCode data
-      s!"M ev={modelEv (h == 1) st} w={wStr st.written} dev={devStr st.devs} S ev={evStr (h == 1) sp}"
+      let sq := Spec.decodeWith Spec.Quirks.go cfg Reader.goValidCloseCode data
+      s!"M ev={modelEv (h == 1) st} w={wStr st.written} dev={devStr st.devs} S ev={evStr (h == 1) sp} Q ev={evStr (h == 1) sq}"
     | _, _, _, _, _, _, _ => "bad-op"
   | _ => "bad-op"
 
